@@ -307,17 +307,18 @@ _reg("C09", engine="mc", level="exploration",
      technique="deterministic simulation of the Monte-Carlo loop: every draw comes from the random seam, every component call is observed, and a reference model of the loop's bookkeeping is advanced event by event (refinement check per step)",
      level_text=("Per iteration, through the seams only: the move-type draw, the proposal handed to the measure, its value, the two "
                  "energies given to the acceptance test, the uniform number it consumed and its answer, the rotation matrix / the "
-                 "single-atom move, the 'Chi2 =' lines.  A 40-line model (held configuration, held energy, lowest energy, counter) "
+                 "single-atom move.  A 40-line model (held configuration, held energy, lowest energy, counter) "
                  "is advanced from these events and checks: judged against the held energy (bitwise), Metropolis rule for the "
                  "recorded u, proposal = translation / centroid rotation / single-atom move of the HELD configuration and of an "
-                 "enabled type, rejection leaves state unchanged, a line printed exactly at each new minimum, the next move is "
-                 "drawn iff the counter is below the budget (an extra draw raises inside the seam), the returned array is the held "
+                 "enabled type (the types the CALLER enabled must be the ones the search is started with, and it starts from the "
+                 "mobile molecule's configuration), rejection leaves state unchanged, no proposal is evaluated once the counter has "
+                 "reached the budget (the monitor raises inside the seam), the returned array is the held "
                  "one bitwise; and the two energies compared at every step equal the reference definition of the measure "
                  "(C08) for the held configuration and for the proposal as they are then (a calculator that drifts is a C09 "
                  "violation too).  Direct drives of the optimiser entry point also use a mobile set in two bonded pieces with every "
                  "restraint on one piece (moves in the other piece tie the measure exactly: 'equal is always accepted'), and "
                  "molecules expressed in other length units (coordinates x 1e-6, 1e-4, 1e3)."),
-     level_note=_MC_NOTE + "  If the loop stops using the module-level names the seams watch, the run is counted as unobservable (probe) instead of judged.",
+     level_note=_MC_NOTE + "  If the loop stops using the module-level names the seams watch (no iteration recognised although proposals were evaluated), the run is counted as unobservable (probe) instead of judged.  What the search prints is not judged (counted in a probe).",
      rule=_MC_RULE,
      components={"Alignment.align_molecules": REAL, "_backend._minimize_molecules (python engine)": REAL,
                  "Chi2Calculator / accept_metropolis / move_mol_atom / find_atom_random_displ / rotation_matrix": REAL + " (wrapped by call-through monitors)",
@@ -335,13 +336,16 @@ _reg("C17", level="exploration",
      technique="in-situ monitors on every rotation matrix the simulated Monte-Carlo loop uses (axes/angles from the random seam incl. injected extremes) and on every local frame the exchange-map histories build; directed closed-form relations",
      level_text=("Every matrix rotation_matrix returns during mc runs (orthogonal, det +1, axis fixed, trace 1 + 2cos(theta), to "
                  "1e-12) and every frame calcule_base returns during xmap runs (right-handed orthonormal to 1e-12, first vector "
-                 "along p2 - p0, third normal to the plane when not collinear, origin p0, inputs unmodified), for generic, exactly "
-                 "collinear (axes, diagonals, integer directions), numerically collinear and coincident-middle-point triples.  "
+                 "along p2 - p0, origin p0, inputs unmodified: for EVERY triple with p0 != p2; third vector normal to the plane within "
+                 "1e-12 + 64 eps / sin(angle), which binds above sin ~ 1e-7), for generic, exactly collinear (axes, diagonals, integer "
+                 "directions), numerically collinear, NEARLY collinear (angle log-uniform 1e-13..1e-2 rad), coincident-middle, "
+                 "coincident-last, far-from-origin and axis-aligned non-collinear (lattice, planar) triples.  "
                  "Directed: axes of norm 1e-6..1e6 and angles in [-20, 20] with R(-t) = R(t)^T, R(a)R(b) = R(a+b) and independence of "
                  "the axis length and of its form (tuple, int array, float32); point triples at scales 2^-10..2^10 of every kind "
                  "above, given as lists or arrays.  A third of the batches reuses ONE buffer overwritten in place between calls."),
-     level_note=("The directed part checks pure functions: seeded generation against closed-form oracles, nothing more.  Triples "
-                 "with an angle in [1e-9, 1e-3) rad are not judged; tolerance 1e-12 (4e-12 for the product relation)."),
+     level_note=("The directed part checks pure functions: seeded generation against closed-form oracles, nothing more.  No clause "
+                 "depends on where an implementation draws its own line between collinear and generic; tolerance 1e-12 (4e-12 for the "
+                 "product relation).  Axis norms stay inside 1e-6..1e6; float32 angles are not used (numpy then computes in float32)."),
      rule="runs of the xmap and mc engines plus directed batches of 40 matrices / 40 frames; non-trivial = the run completed; distinct = distinct behaviour signatures",
      components={"rotation_matrix": REAL, "calcule_base": REAL, "callers": "ExchangeMap and the MC loop, real code"},
      schedule_dimension="call histories on a map; the random stream of the MC loop",
@@ -401,8 +405,10 @@ _reg("C11", engine="system", level="exploration",
                  "different sizes, an unloaded solvent) and files of 0..6 (thorough: up to 40) molecules in any order with solvent "
                  "interspersed.  The schedule is the order of topology loads (constructor arguments, add_ftop by path / open file, "
                  "add_molecule_top), any subset, with len / composition / every index incl. negative / slices / iteration executed "
-                 "between loads, and failing loads (species absent from the file, unrelated shipped topology, duplicate load, same "
-                 "signature with other atom names) injected anywhere: they must raise and leave every observer unchanged.  Whether "
+                 "between loads, and failing loads (species absent from the file, unrelated shipped topology, same signature with "
+                 "other atom names, a topology whose residue kinds all occur in the file but never as that run -- reversed, "
+                 "extended, doubled) injected anywhere: they must raise and leave every observer unchanged; a duplicate load may "
+                 "raise or be accepted, but must change nothing.  The file may carry velocity columns.  Whether "
                  "the harness looks right after a load is scheduled; live System iterators are stepped between other accesses; "
                  "neighbouring residues of different kinds may share a residue number; a few systems have 1000-2000 residues or "
                  "start with a solvent prefix of 2^k +- 2 residues."),
@@ -499,3 +505,67 @@ _reg("C20", engine="cli", level="exploration",
      schedule_dimension="candidate-list order, set iteration order, hash seed, order of --mol triples",
      probes=["incomplete_species_among_candidates", "excluded_species", "explicit_plus_auto", "default_output_name", "real_process_runs",
              "same_species_order_across_hash_seeds", "auto_run_compared_with_library", "relative_paths_cwd", "relative_paths_subdir"])
+
+
+# --------------------------------------------------------------------------
+# session-2 audit round (DESIGN A.12): what was added to each check after the read-only audits
+# --------------------------------------------------------------------------
+_ADDENDA = {
+    "C01": "Audit round: the law is also judged on calls with the very object the map was built from (while it still sits on the "
+           "construction configuration), references with one anchor NEARLY collinear (angle 1e-12..2e-3 rad) and axis-aligned "
+           "non-collinear references (lattice points, often planar); tolerance is the statement's absolute 1e-9 nm.",
+    "C02": "Audit round: for references of >= 3 atoms the object the map was built from, moved and rotated in place by the "
+           "history, is judged too (the rigid motion is recovered from the coordinates); two-atom references must be mapped as ONE "
+           "rigid image (all mutual distances); the statement's 1e-8 nm is absolute up to 100 nm from the origin.  If the map's "
+           "anchor table is unusable the statement's own nearest-anchor rule replaces it instead of silencing the oracles.",
+    "C03": "Audit round: references of 1 and 2 atoms are judged (distance to the first atom and all mutual distances scale by s), "
+           "conformations with a NEARLY collinear anchor are generated (the frame is orthonormal there too), locality is probed "
+           "from such bases as well.",
+    "C04": "Audit round: the same argument OBJECT is offered again later in the history (possibly moved in between), every earlier "
+           "argument is compared with its snapshot at the end, rejected kinds include the same atoms in another order and one atom "
+           "fewer.",
+    "C05": "Audit round: end coordinate files with velocity columns on some species only, boxes with some off-diagonal elements "
+           "zero (monoclinic / hexagonal shapes), nothing may follow the box line, small-reference molecules must be one rigid image "
+           "of the map's result, the species' maps are judged against the anchor-and-scale law again AFTER each extrapolation, and a "
+           "species detached and attached again may either keep or lose its map (both outcomes accepted).",
+    "C06": "Audit round: what the Alignment holds before aligning is compared with what the caller supplied; molecules reach it by "
+           "constructor, by assignment in either order, or after being cleared with None; options as lists or left at their "
+           "defaults; connected mobile molecules with rings; absolute 1e-9 nm tolerances up to 1000 nm from the origin.",
+    "C07": "Audit round: the bond table is snapshotted before every call (a call that edits it is a violation, and the oracle uses "
+           "the snapshot), neighbour lists come in arbitrary order in a third of the tables, and the form 'atom named, displacement "
+           "drawn' is exercised on every enumerated tree.",
+    "C08": "Audit round: mobile configurations as Fortran-ordered and as strided non-contiguous views, the arrays a calculator was "
+           "built from must stay unchanged, and evaluations with a nearest-atom tie are still required to be finite and "
+           "non-negative.",
+    "C10": "Audit round: multi-residue pairs with restrictions=None run through align_molecules itself (guessing on, off, flag left "
+           "at its default; either molecule larger; hydrogen filter on/off): what reaches the optimiser must be the guesser's pairs "
+           "(themselves judged against the statement's clauses) after role swap and filtering.  The element rule (first run of "
+           "letters of the name) is evaluated by the harness; hydrogens named number-first ('1H2').  Malformed values include the "
+           "first index that does not exist; each recorded alignment must hold its own species' molecules.  An option for a known "
+           "species without end molecule may be rejected or ignored.",
+    "C12": "Audit round: coordinate layouts other than %8.3f (decimals 1..6, width decimals+5), atom names filling five columns, "
+           "each residue's own length / name / number, and residues handed out earlier are compared with the file again at the end.",
+    "C13": "Audit round: the atom count may be declared after some records were written; names from the whole non-blank alphabet "
+           "(lower case, dots, no letter at all); the file must end with its box line and one newline; boxes as integer arrays, "
+           "from nested lists, with three-digit edges; the layout of position and velocity columns is read off the file; random "
+           "access is checked at five records and for the record that follows.",
+    "C14": "Audit round: an image must be refused when its atom-count line is blank or it ends at or before the first byte of the "
+           "box line -- a rule that does not depend on the order in which the writer performs the steps of close; sessions that "
+           "declare the count late are enumerated too.",
+    "C15": "Audit round: copies are compared with the file field by field (also a copy of the copy and a copy taken after a bond "
+           "was added to the original), connectivity is asked of the copy and again after two components were connected, files "
+           "without any bond section, thousands of atoms with exactly one bond missing.",
+    "C16": "Audit round: the OBJECTS the re-reads yield (section order, the content lines a section lists, every line's content and "
+           "comment) are compared with the original text by the independent classifier; a section name may occur three times; "
+           "indented comment-only lines.",
+    "C18": "Audit round: the residue numbers held by the topology are tracked (plain copies share them, deep copies own theirs); "
+           "a molecule's resids / resnames and a residue's resid / resname must agree with their atoms.",
+    "C19": "Audit round: lattice shifts are also applied by the harness to a bare point (not through the library's move), and the "
+           "distance to a residue must equal the distance to its geometric centre given as a point.",
+    "C20": "Audit round: the species the tool hands to the mapping step are recorded at the auto_map call (its printed report is "
+           "only a fallback); real-process outputs are compared byte for byte with the library workflow; --auto over the whole "
+           "shipped data directory; --auto with the default output name and with a relative -o; no stray mapped_* files; a world "
+           "both workflows refuse is not a difference; consumed random streams are no longer compared.",
+}
+for _pid, _txt in _ADDENDA.items():
+    PROPERTIES[_pid]["level_text"] = PROPERTIES[_pid]["level_text"] + "  " + _txt
